@@ -23,7 +23,10 @@ func verifAdvance() {
 	verifNowSec += d
 }
 
-func verifTimeNow() time.Time { return time.Unix(verifNowSec, 0) }
+func verifTimeNow() time.Time { return time.Unix(verifNowSec, verifNowFrac) }
+
+// nanoseconds within the current second (0 unless a harness makes the clock finer than the stamps)
+var verifNowFrac int64
 
 // ============ context model ============
 
@@ -373,7 +376,7 @@ var verifSleeps []time.Duration
 var verifPendingSleep time.Duration
 
 func verifEnvReset() {
-	verifNowSec, verifNowNS = 0, 0
+	verifNowSec, verifNowNS, verifNowFrac = 0, 0, 0
 	verifSF.keys, verifSF.follower, verifSF.followerFn, verifSF.strict, verifSF.other = nil, false, nil, false, false
 	verifSF.joinPoll, verifSF.onJoin, verifSF.inflight, verifSF.beforeLead = false, nil, "", nil
 	verifEG.err, verifEG.cancel = nil, nil
